@@ -31,6 +31,7 @@ CONSTANTS
   MaxId = %(maxid)d
   MaxHeld = %(maxheld)d
   Drops = %(drops)s
+  Casts = {%(casts)s}
   Depth = %(depth)d
   Record = %(record)s
 %(extra)s
@@ -53,17 +54,14 @@ def q(xs):
     return ", ".join(json.dumps(x) if isinstance(x, str) else ("TRUE" if x is True else "FALSE" if x is False else str(x)) for x in xs)
 
 
-def gen_cfg(mode, cmds, depth=0, slots=(1, 2, 3), kinds=("v1", "v2", "mock"), filters=("", "a"), ns=(1, 2, 3), maxid=3, maxheld=2, buf=BUF):
-    """mode: mc (exhaustive check of the contract model, no history) | bfs (every sequence to depth) |
-    tour (every edge of the bounded state graph once, with observing suffix) | sim (for -simulate)"""
-    d = dict(slots=q(slots), cmds=q(cmds), kinds=q(kinds), filters=q(filters), ns=q(ns), maxid=maxid, maxheld=maxheld, buf=buf,
+def gen_cfg(mode, cmds, depth=0, slots=(1, 2, 3), kinds=("v1", "v2", "mock"), filters=("", "a"), ns=(1, 2, 3), maxid=3, maxheld=2, buf=BUF, casts=("none",)):
+    """mode: mc (exhaustive check of the contract model, no history) | bfs (every sequence to depth, with observing suffix) |
+    sim (for -simulate)"""
+    d = dict(slots=q(slots), casts=q(casts), cmds=q(cmds), kinds=q(kinds), filters=q(filters), ns=q(ns), maxid=maxid, maxheld=maxheld, buf=buf,
              depth=depth, record="FALSE" if mode == "mc" else "TRUE", drops="TRUE" if mode == "mc" else "FALSE", extra="", properties="")
     if mode == "mc":
         d["invariants"] = "HTypeOK HistoryIsRecentUndeleted HistoryThenLive ExactlyOnceInOrder GoneGetsNoMore HistoryBound QueuedOpsBounded"
         d["properties"] = "PROPERTIES OthersUnaffected DroppedStaysDropped NobodyMisses HubNeverBlocks"
-    elif mode == "tour":
-        d["extra"] = "VIEW TourView"
-        d["invariants"] = "EmitTour"
     else:
         d["invariants"] = "Emit"
     return GEN_CFG % d
@@ -209,19 +207,28 @@ def diagnose(r):
     """Words for a rejected step (reporting only; the verdict is TLC's)."""
     ev = r["rejected_event"]
     pre = r["accepted_prefix"]
-    disc = [e for e in pre if e.get("a") == "disconnect"]
-    closing = [e for e in disc if e.get("qbefore", 0) >= 2]
     pan = sum(e.get("panics", 0) for e in pre + [ev])
+    later_stuck = any(e.get("sync") == "stuck" for e in r.get("rest_of_trace", []))
+    # a socket listener whose buffer was not emptied by its disconnect and has grown since
+    zombies = []
+    for k, e in enumerate(pre + [ev]):
+        if e.get("a") == "disconnect" and e.get("qbefore", 0) >= 2:
+            after = [x["q"][e["slot"] - 1] for x in (pre + [ev])[k:] if "q" in x]
+            if after and max(after) > after[0]:
+                zombies.append(e)
+    ztext = ""
+    if zombies:
+        e = zombies[-1]
+        ztext = ("socket listener %d was disconnected with %d events buffered: both Close() calls swallowed one event instead of removing the listener; it is still "
+                 "registered with the hub and its buffer, which nobody reads any more, has grown since" % (e["slot"], e["qbefore"]))
     if ev.get("sync") == "stuck":
-        return "hub-blocked", ("hub.Sync() did not return within the deadline although no connected listener's buffer is full: the hub is blocked"
-                               + (" (a socket listener was disconnected earlier with %d events buffered and is still registered)" % closing[-1]["qbefore"] if closing else ""))
+        return "hub-blocked", ("hub.Sync() did not return within the deadline although no connected listener's buffer is full: the hub is blocked" + (" (" + ztext + ")" if ztext else ""))
+    if zombies:
+        return ("not-dropped-then-hub-blocked" if later_stuck else "not-dropped"), (
+            ztext + ("; later in this behaviour its buffer is full and hub.Sync() no longer returns: the hub is blocked for good" if later_stuck else ""))
     if pan and ev.get("sync") == "ok":
         return "broadcast-cut-short", ("a listener that is still attached was not handed an event that was dispatched while another listener disconnected "
-                                       "(the hub logged %d recovered panic(s): send on the closed channel of the disconnected listener aborts the broadcast)" % pan)
-    if closing and ev.get("a") in ("dispatch", "delete", "end"):
-        e = closing[-1]
-        return "not-dropped", ("the buffer of socket listener %d grew after its disconnect: it was disconnected with %d events buffered, both Close() calls swallowed "
-                               "one event instead of removing it, and it is still registered with the hub" % (e.get("slot"), e.get("qbefore")))
+                                       "(the hub logged %d recovered panic(s): the send on the closed channel of the disconnected listener aborts the broadcast)" % pan)
     return "other-" + str(ev.get("a")), "the observation is not what HubContract says the listeners are due"
 
 
@@ -270,6 +277,7 @@ def replay_and_validate(run, vh, behaviours, label, jvms=8):
     sigs = {}
     for r in rejections:
         b = byid.get(r["trace"], {})
+        r["rest_of_trace"] = [json.loads(l) for _, l in traces[r["trace"]][r["rejected_event_index"] + 1:]]
         sig, words = diagnose(r)
         v = sigs.setdefault(sig, {"b": b, "r": r, "n": 0, "words": words})
         v["n"] += 1
@@ -319,62 +327,65 @@ def one_per_walk(sims):
 
 
 # --------------------------------------------------------------------------- C15
+CASTS_LIVE = ("v2+m", "v1a+v2+m", "v2+v2", "m+m+v2", "v2a+v2+m")
+CASTS_ALL = ("v2", "v1", "v2+m", "v1+m", "v2a+m", "v2+v2", "v1a+v2+m", "v2+v1+m", "v2a+v2+m", "m+m+v2")
+
+
 def c15(run, args):
     if args.replay:
         return replay_file(run, args)
     quick = run.tier == "quick"
     vh = run.build_harness()
-    seq_cmds = ["dispatch", "delete", "delunknown", "join", "joinbroken", "leave", "fail", "disconnect", "take", "takeempty"]
-    # (1) the contract model: closed-form statements of C15 and the step properties, small buffer so that "full" is reached
-    run.model_check("GenHub", gen_cfg("mc", ALL_CMDS if not quick else [c for c in ALL_CMDS if c != "joinarmed"], slots=(1, 2), ns=(1, 2),
-                                      maxid=2 if quick else 3, maxheld=1, buf=2, filters=("", "a") if not quick else ("",)),
-                    label="GenHub(contract model)", timeout=1500)
-    # (2) transition tour: every (contract state, operation) edge once, followed by a dispatch per mailbox and a delete
-    tour = run.generate("GenHub", gen_cfg("tour", seq_cmds, depth=40, slots=(1, 2) if quick else (1, 2, 3), kinds=("v1", "v2", "mock"),
-                                          filters=("", "a"), ns=(1, 2) if quick else (1, 2, 3), maxid=2 if quick else 3), workers=4, timeout=1200)
-    # (3) schedules: every sequence to a bounded depth in which a slow mock holds the hub while operations are queued
-    sched_cmds = ["dispatch", "delete", "join", "joinarmed", "leave", "fail", "disconnect", "take", "gate", "release"]
-    bfs = run.generate("GenHub", gen_cfg("bfs", sched_cmds, depth=5 if quick else 6, slots=(1, 2, 3), kinds=("v2", "mock") if quick else ("v1", "v2", "mock"),
-                                         filters=("",) if quick else ("", "a"), ns=(2,), maxid=3 if quick else 4, maxheld=3), workers=8, timeout=1200)
-    bfs = [b for b in bfs if gated(b)]
-    # (4) long simulated behaviours over the whole alphabet
-    nsim = 300 if quick else 3000
+    # (1) the contract model: closed-form statements of C15 and the step properties; small buffer so that "full" is reached
+    mc_cmds = [c for c in ALL_CMDS if c != "delunknown"]
+    run.model_check("GenHub", gen_cfg("mc", mc_cmds, slots=(1, 2), ns=(2,) if quick else (1, 2, 3), maxid=2, maxheld=1, buf=2,
+                                      filters=("",) if quick else ("", "a")), label="GenHub(contract model)", timeout=1500)
+    # (2) history: every sequence of dispatches / deletes / joins to a bounded depth, history lengths 1..3
+    hist = run.generate("GenHub", gen_cfg("bfs", ["dispatch", "delete", "delunknown", "join", "joinbroken"], depth=4 if quick else 5, slots=(1, 2),
+                                          ns=(1, 2, 3), maxid=4), workers=8, timeout=1200)
+    # (3) live: listeners attached first, then every sequence of dispatch / delete / take / disconnect / leave / fail
+    live = run.generate("GenHub", gen_cfg("bfs", ["dispatch", "delete", "take", "disconnect", "leave", "fail"], depth=4 if quick else 5,
+                                          ns=(2,), maxid=4, casts=CASTS_LIVE if quick else CASTS_ALL), workers=8, timeout=1200)
+    # (4) schedules: a slow mock holds the hub goroutine inside a broadcast (or inside the history playback of its own join)
+    #     while operations are queued behind it; every sequence to a bounded depth
+    sched = run.generate("GenHub", gen_cfg("bfs", ["dispatch", "delete", "take", "disconnect", "leave", "fail", "gate", "release"], depth=4 if quick else 5,
+                                           ns=(2,), maxid=4, maxheld=3, casts=("v2+m", "v1a+v2+m", "m+m+v2")), workers=8, timeout=1200)
+    sched += run.generate("GenHub", gen_cfg("bfs", ["dispatch", "delete", "join", "joinarmed", "leave", "fail", "disconnect", "take", "gate", "release"],
+                                            depth=5 if quick else 6, kinds=("v2", "mock") if quick else ("v1", "v2", "mock"), filters=("",), ns=(2,),
+                                            maxid=3, maxheld=3), workers=8, timeout=1200)
+    sched = [b for b in sched if gated(b)]
+    # (5) long simulated behaviours over the whole alphabet
+    nsim = 300 if quick else 2500
     sim = one_per_walk(run.generate("GenHub", gen_cfg("sim", ALL_CMDS, depth=24 if quick else 40, ns=(1, 2, 3), maxid=10 if quick else 16, maxheld=4),
                                     simulate={"num": nsim, "depth": 25 if quick else 41}))[:nsim]
     full = full_buffer_scenarios()
     if quick:
         full = [f for i, f in enumerate(full) if (i + run.seed) % 3 == 0]
-    rng = random.Random(run.seed)
-    cap = 6000 if quick else 60000
-    if len(bfs) > cap:
-        run.log("schedules: %d enumerated, %d replayed (seeded sample)" % (len(bfs), cap))
-        bfs = rng.sample(bfs, cap)
-        exhaustive = False
-    else:
-        exhaustive = True
-    run.cov["distinct_nontrivial"] += len({json.dumps(s, sort_keys=True) for s in tour + bfs + sim + full if nontrivial(s)})
-    run.cov["exhaustive"] = exhaustive
-    beh = behaviours_from(run, tour, "tour")
+    run.cov["distinct_nontrivial"] += len({json.dumps(s, sort_keys=True) for s in hist + live + sched + sim + full if nontrivial(s)})
+    run.cov["exhaustive"] = True
+    beh = behaviours_from(run, hist, "hist") + behaviours_from(run, live, "live")
     # a share of the sequential behaviours is also driven end to end: events enter through the extension host's after-events
-    beh += behaviours_from(run, [b for i, b in enumerate(tour) if i % (10 if quick else 4) == run.seed % 4 and not gated(b)], "ext", ext=lambda i, b: True)
-    beh += behaviours_from(run, bfs, "sched")
+    share = 12 if quick else 6
+    beh += behaviours_from(run, [b for i, b in enumerate(hist + live) if i % share == run.seed % share], "ext", ext=lambda i, b: True)
+    beh += behaviours_from(run, sched, "sched")
     beh += behaviours_from(run, sim, "sim")
     beh += behaviours_from(run, full, "full")
     pick = lambda xs: xs[len(xs) // 2]["steps"][:14] if xs else []
-    run.cov["samples"] = [pick(tour), pick(bfs), pick(sim)]
+    run.cov["samples"] = [pick(hist), pick(live), pick(sched), pick(sim)]
     replay_and_validate(run, vh, beh, "c15")
-    run.cov["rule"] = ("TLC walks every edge (contract state, operation) of HubContract's bounded state graph once (transition tour over dispatch to 2 mailboxes, delete of "
-                       "any stored / of an unknown message, join of a v1/v2 socket listener with or without mailbox filter or of a mock (also one that fails from its first "
-                       "call), leave, fail, disconnect with however many events are buffered, take, take from an empty buffer; history length 1..3; each edge followed by one "
-                       "dispatch per mailbox and a delete so that a listener that should have left, or one that was forgotten, shows), enumerates every schedule to the stated "
-                       "depth in which a slow mock holds the hub goroutine inside a broadcast or a history playback while dispatch/delete/join/leave/fail/disconnect/take are "
-                       "queued behind it, simulates long behaviours over the whole alphabet, and adds written-out buffer-full scenarios (100 buffered events: disconnect when "
-                       "full, hub waiting for a full buffer then take / disconnect).  Each is executed on the real msghub.Hub with the real msgListenerV1/V2 (constructor hook; "
-                       "disconnect = the two Close() calls of reader and writer) and a recording mock, directly and (a share) through the extension host's after-events; after "
-                       "every operation hub.Sync() is probed with a 5 s deadline.  TLC checks against HubContract at every moment the hub is idle: buffered count of every "
-                       "attached socket listener == due - taken, every take and the final emptying return the next due events in order, every attached mock's calls == history "
-                       "at join then every relevant event exactly once in hub order (v1: stored only), a listener that left is handed nothing dispatched later, Sync returns "
-                       "unless a connected listener's buffer is full.  non-trivial = something is broadcast while a listener is attached; distinct = distinct abstract behaviour")
+    run.cov["rule"] = ("TLC enumerates, each to the stated depth and completely: (history) every sequence of dispatch to 2 mailboxes / delete of any stored or of an unknown "
+                       "message / join of a v1 or v2 socket listener with or without mailbox filter or of a mock (also one that fails from its first call), history length 1..3; "
+                       "(live) with listener sets attached first, every sequence of dispatch / delete / take / disconnect with however many events are buffered / leave / fail; "
+                       "(schedules) the same with a slow mock holding the hub goroutine inside a broadcast or inside the history playback of its own join while further "
+                       "operations are queued behind it, then released; plus long simulated behaviours over the whole alphabet and written-out buffer-full scenarios (100 "
+                       "buffered events: disconnect when full / nearly full, hub waiting for a full buffer then take / disconnect).  Every behaviour ends with a dispatch per "
+                       "mailbox and a delete, so that a listener that should have left, or one that was forgotten, shows.  Each is executed on the real msghub.Hub with the real "
+                       "msgListenerV1/V2 (constructor hook; disconnect = the two Close() calls of reader and writer) and a recording mock, directly and (a share) through the "
+                       "extension host's after-events; after every operation hub.Sync() is probed with a 5 s deadline.  TLC checks against HubContract at every moment the hub "
+                       "is idle: buffered count of every attached socket listener == due - taken, every take and the final emptying return the next due events in order, every "
+                       "attached mock's calls == history at join then every relevant event exactly once in hub order (v1: stored only), a listener that left is handed nothing "
+                       "dispatched later, Sync returns unless a connected listener's buffer is full.  non-trivial = something is broadcast while a listener is attached; "
+                       "distinct = distinct abstract behaviour")
     run.assumptions += ["history length 0 (monitor disabled: nothing relayed) is not exercised",
                         "a hub that waits for the full buffer of a still-connected socket listener is tolerated (in the running system bounded by the 10 s write deadline, after "
                         "which the writer disconnects); alternatively the hub may drop such a listener; progress is demanded from the disconnect on",
